@@ -236,6 +236,9 @@ class Scheduler:
         """Voluntary yield (sleep / idle polling loop): another enabled thread runs if there is one."""
         me = self.me()
         if me is None:
+            if self.abort:
+                # a program thread of a run that was given up (its bookkeeping is gone): it must not spin on
+                raise SchedAbort()
             return
         self._bump()
         nxt = self._next_enabled(me)
